@@ -15,20 +15,14 @@ if _src not in sys.path[:1]:
     sys.path.insert(0, _src)
 warnings.filterwarnings('ignore')
 os.environ.setdefault('MPLBACKEND', 'Agg')
+os.environ['TQDM_DISABLE'] = '1'  # read by tqdm when it is imported: bars stay silent, the library's own progress_bar code runs unchanged
 
 
 def quiet_library():
-    """Silence progress bars and the cache logger's stdout handler. Idempotent."""
+    """Silence the cache logger's stdout handler and the chain's console handler (progress bars: TQDM_DISABLE above).
+    Nothing of the library is replaced. Idempotent."""
     import logging
 
-    import taskchain.utils.iter as it
-    import taskchain.utils.io as io_
-
-    def silent_bar(data, use_tqdm=True, smoothing=0.0, **kwargs):
-        return data
-
-    it.progress_bar = silent_bar
-    io_.progress_bar = silent_bar
     import taskchain.cache as cache
 
     for h in list(cache.logger.handlers):
